@@ -389,6 +389,21 @@ def check_C08(ctx):
             ctx.dist('compiled')
         else:
             ctx.dist('rejected')
+    # observers are read-only: listing the code (disassemble) and asking for the available locations leave both tables as the
+    # compiler made them
+    sub = [i for i, x in enumerate(a) if not is_crash(x) and fields(x).get('ok') == '1'][:ctx.n(250, 2000)]
+    od = impl(ctx, ['GEND ' + files_req(cases[i][0], cases[i][1]) for i in sub])
+    ctx.count('GEN', len(sub), 'compilations followed by disassemble()')
+    for i, o in zip(sub, od):
+        ctx.cov['evaluations'] += 1
+        if is_crash(o):
+            ctx.violation('observer-crash', 'disassemble() / getAvailableBreakpoints() on a fresh compilation result crashed: ' + o[:200], cases[i][2]['text'])
+            break
+        fo, fx = fields(o), fields(a[i])
+        if (fo['pb'], fo['li'], fo['code']) != (fx['pb'], fx['li'], fx['code']):
+            ctx.violation('observer-writes', 'after disassemble() the tables of the compiled program differ from those the compiler returned (%s)' % (
+                'site-to-location table' if fo['li'] != fx['li'] else ('location-to-sites table' if fo['pb'] != fx['pb'] else 'code')), cases[i][2]['text'])
+            break
     # "a location can be enabled if and only if stepping can report it", on the machine, over histories: refused requests,
     # clear, reset and repeated requests must not make an unavailable location enabled (or an available one refused)
     from checks import vmprops
@@ -453,6 +468,11 @@ TEMP_MACROS = [
     ("DEFINE SAVE <ID> IN ( <P> ) AS #0 := $0; $1; $0 := #0 END DEFINE\n",
      ["SAVE a IN ( a := 1 )", "SAVE a IN ( a := 1; SAVE b IN ( b := 2 ) )", "SAVE a IN ( SAVE b IN ( b := 2 ); a := b )",
       "SAVE a IN ( a := 7 ); SAVE b IN ( b := a )", "SAVE a IN ( SAVE b IN ( SAVE x0 IN ( x0 := 9; a := 1; b := 2 ) ) )"]),
+    # the same with a wordy pattern: every rewrite makes the stream SHORTER
+    ("DEFINE KEEP <ID> SAFE DURING ( <P> ) THEN PUT IT BACK AGAIN PLEASE AS #0 := $0; $1; $0 := #0 END DEFINE\n",
+     ["KEEP a SAFE DURING ( a := 1 ) THEN PUT IT BACK AGAIN PLEASE",
+      "KEEP a SAFE DURING ( a := 1; KEEP b SAFE DURING ( b := 2 ) THEN PUT IT BACK AGAIN PLEASE ) THEN PUT IT BACK AGAIN PLEASE",
+      "KEEP a SAFE DURING ( KEEP b SAFE DURING ( b := 2 ) THEN PUT IT BACK AGAIN PLEASE ; a := b ) THEN PUT IT BACK AGAIN PLEASE"]),
 ]
 
 
@@ -684,6 +704,9 @@ def check_C10(ctx):
         'SAVE a IN ( a := 1 )': {'a': 3}, 'SAVE a IN ( a := 1; SAVE b IN ( b := 2 ) )': {'a': 3, 'b': 4},
         'SAVE a IN ( SAVE b IN ( b := 2 ); a := b )': {'a': 3, 'b': 4}, 'SAVE a IN ( a := 7 ); SAVE b IN ( b := a )': {'a': 3, 'b': 4},
         'SAVE a IN ( SAVE b IN ( SAVE x0 IN ( x0 := 9; a := 1; b := 2 ) ) )': {'a': 3, 'b': 4, 'x0': 0},
+        'KEEP a SAFE DURING ( a := 1 ) THEN PUT IT BACK AGAIN PLEASE': {'a': 3},
+        'KEEP a SAFE DURING ( a := 1; KEEP b SAFE DURING ( b := 2 ) THEN PUT IT BACK AGAIN PLEASE ) THEN PUT IT BACK AGAIN PLEASE': {'a': 3, 'b': 4},
+        'KEEP a SAFE DURING ( KEEP b SAFE DURING ( b := 2 ) THEN PUT IT BACK AGAIN PLEASE ; a := b ) THEN PUT IT BACK AGAIN PLEASE': {'a': 3, 'b': 4},
     }
     for (defs, u), o in zip(e2e_meta, outs):
         if True:
